@@ -5,6 +5,8 @@ use noodles_bgzf as bgzf;
 pub fn run(id: &str) -> Result<String, String> {
     match id {
         "F15" => f15(),
+        "F16" => f16(),
+        "F1" => f1(),
         _ => Err(format!("unknown witness {id}")),
     }
 }
@@ -23,4 +25,45 @@ fn f15() -> Result<String, String> {
     let n2 = match r.read(&mut buf) { Ok(n) => n, Err(_) => 0 };
     if n2 != 0 { return Err(format!("read at end of a marker-less BGZF stream returned Ok({n2}) with a 65536-byte buffer; expected Ok(0)")); }
     Ok("\"cases\":1".into())
+}
+
+/// F16: seek to the end of a marker-less BGZF stream, then read: must yield nothing (not the previous block again).
+fn f16() -> Result<String, String> {
+    let mut w = bgzf::io::Writer::new(Vec::new());
+    w.write_all(b"noodles").unwrap();
+    let data = w.finish().unwrap();
+    let cut = data[..data.len() - 28].to_vec();
+    let end = cut.len() as u64;
+    let mut r = bgzf::io::Reader::new(std::io::Cursor::new(cut));
+    let mut all = Vec::new();
+    r.read_to_end(&mut all).map_err(|e| e.to_string())?;
+    if all != b"noodles" { return Err(format!("first pass read {:?}", all)); }
+    let vp = bgzf::VirtualPosition::try_from((end, 0)).unwrap();
+    match r.seek(vp) {
+        Err(_) => return Ok("\"cases\":1".into()),
+        Ok(_) => {}
+    }
+    let got_vp = r.virtual_position();
+    let mut buf = Vec::new();
+    r.read_to_end(&mut buf).map_err(|e| e.to_string())?;
+    if !buf.is_empty() || got_vp != vp {
+        return Err(format!("after seek to end-of-stream position ({end},0) of a marker-less BGZF file: virtual_position()={:?}, read_to_end returned {:?} (expected nothing)", got_vp, String::from_utf8_lossy(&buf)));
+    }
+    Ok("\"cases\":1".into())
+}
+
+/// F1: seek to (0,100) in a 7-byte block, then read_exact: must be an error, not a panic.
+fn f1() -> Result<String, String> {
+    let mut w = bgzf::io::Writer::new(Vec::new());
+    w.write_all(b"noodles").unwrap();
+    let data = w.finish().unwrap();
+    let r = std::panic::catch_unwind(move || {
+        let mut r = bgzf::io::Reader::new(std::io::Cursor::new(data));
+        let vp = bgzf::VirtualPosition::try_from((0, 100)).unwrap();
+        if r.seek(vp).is_err() { return true; }
+        let mut b = [0u8; 1];
+        let _ = r.read_exact(&mut b);
+        true
+    });
+    match r { Ok(_) => Ok("\"cases\":1".into()), Err(_) => Err("seek to (0,100) in a 7-byte block then read_exact panics".into()) }
 }
